@@ -489,3 +489,31 @@ add("P7b", "break", CORE, FCH, "        arg_list = [(pd.Index(self.result_index)
 add("P7b", "keep", CORE, FCH, "self._result_index = pd.Index(np.concatenate(unique_list)).drop_duplicates()", "self._result_index = pd.Index(pd.unique(np.concatenate(unique_list)))", name="P7b pd.unique keeps first-appearance order")
 add("P7b", "keep", CORE, FCH, "        arg_list = [(pd.Index(self.result_index), arr) for arr in unique_list]\n        self._group_key_pointers = parallel_map(get_indexer, arg_list)\n", "        label_index = pd.Index(self.result_index)\n        self._group_key_pointers = [label_index.get_indexer(arr) for arr in unique_list]\n", name="P7b lookups in a comprehension")
 add("E3", "break", EMAS, "_ema_grouped_timed", "        if last_seen_times[k] > 0:\n", "        if masked and (not mask[i]):\n            out[i] = last_seen[k]\n            last_seen_times[k] = times[i]\n            continue\n        if last_seen_times[k] > 0:\n", name="E3 masked rows advance the clock without decaying the state")
+
+# --------------------------------------------------------------------------------------------- M7 M8 P11b P13 P14 P15 P16 D3b E4 F1b S3b
+add("M7", "break", CORE, "GroupBy.ema", "times=None if times is None else times[indexer]", "times=times", name="M7 times forwarded in row order while values are group-sorted")
+add("M7", "break", CORE, "GroupBy.ema", "mask=None if mask is None else mask[indexer]", "mask=mask", name="M7 mask forwarded in row order")
+add("M7", "keep", CORE, "GroupBy.ema", "times=None if times is None else times[indexer]", "times=times[indexer] if times is not None else None", name="M7 conditional mirrored")
+add("M8", "break", CORE, "GroupBy.count_ikey", "count += numba_funcs.group_size(chunk, self.ngroups, mask=m)", "count += numba_funcs.group_size(chunk, self.ngroups, mask=mask)", name="M8 raw mask paired with the cut key chunks")
+add("M8", "break", CORE, "GroupBy.count_ikey", "            count = np.zeros(self.ngroups, dtype=np.int64)\n", "            if self._group_key_pointers is None:\n                return numba_funcs.group_size(_val_to_numpy(group_key), self.ngroups, mask=mask)\n            count = np.zeros(self.ngroups, dtype=np.int64)\n", name="M8 single-pass count re-applies the slice")
+add("M8", "keep", CORE, "GroupBy.count_ikey", "                m = mask_chunks[i]\n", "                m = mask_chunks[i]\n                n_rows = len(chunk)\n", name="M8 unrelated local")
+add("P11b", "break", CORE, "GroupBy.apply", "index = self._build_group_sorted_index(common_index)", "index = self._build_group_sorted_index(self._key_index)", name="P11b apply labels rows by the keys' index")
+add("P11b", "break", CORE, "GroupBy.ema", "result_index = self._build_group_sorted_index(common_index)", "result_index = self._build_group_sorted_index()", name="P11b ema labels rows by position")
+add("P13", "break", CORE, "GroupBy._col_names_from_value_names", "name if name is not None else f'_arr_{i}'", "name or f'_arr_{i}'", name="P13 falsy names replaced")
+add("P13", "break", CORE, "GroupBy._col_names_from_value_names", "name if name is not None else f'_arr_{i}'", "name if name else f'_arr_{i}'", name="P13 truthiness test")
+add("P13", "keep", CORE, "GroupBy._col_names_from_value_names", "name if name is not None else f'_arr_{i}'", "f'_arr_{i}' if name is None else name", name="P13 is None form")
+add("P14", "break", CORE, "crosstab", "column_levels = levels[n0:]", "column_levels = levels[n1:]", name="P14 column levels cut at the wrong bound")
+add("P14", "keep", CORE, "crosstab", "    row_levels = levels[:n0]\n    column_levels = levels[n0:]\n", "    row_levels, column_levels = (levels[:n0], levels[n0:])\n", name="P14 tuple assignment")
+add("P15", "break", CORE, "add_row_margin", "        out.loc[summary.index] = summary\n", "        out.update(summary)\n", name="P15 summary rows written with update()")
+add("P16", "break", CORE, "add_row_margin", "        summary = add_row_margin(summary, agg_func)\n", "        if len(levels) == len(all_levels):\n            summary = add_row_margin(summary, agg_func)\n", name="P16 recursion only when all levels are requested")
+add("P16", "keep", CORE, "add_row_margin", "        summary = add_row_margin(summary, agg_func)\n", "        summary = add_row_margin(summary, agg_func=agg_func)\n", name="P16 keyword form")
+add("D3b", "break", NB, "_rolling_max_or_min_1d", "if group_non_null[key] == 0 or (want_max and val >= cur_best)", "if n_seen == 0 or (want_max and val >= cur_best)", name="D3b first value installed on rows seen, not non-null values seen")
+add("D3b", "break", NB, "_rolling_max_or_min_1d", "if group_non_null[key] == 0 or (want_max and val >= cur_best) or (want_min and val <= cur_best):", "if (want_max and val >= cur_best) or (want_min and val <= cur_best):", name="D3b no unconditional install for the first non-null value")
+add("E4", "break", EMAS, "_ema_adjusted", "            residual_weights += 1\n            residual += x\n        residual *= beta\n        residual_weights *= beta\n", "            residual_weights = beta * (residual_weights + 1)\n            residual = beta * (residual + x)\n", name="E4 ungrouped kernel does not age the history on null rows")
+add("E4", "break", EMAS, "_ema_grouped", "        residuals[k] *= beta\n        residual_weights[k] *= beta\n", "        if not np.isnan(x):\n            residuals[k] *= beta\n            residual_weights[k] *= beta\n", name="E4 grouped kernel does not age the history on null rows")
+add("E4", "break", EMAS, "_ema_adjusted", "        residual *= beta\n", "        residual *= beta * beta\n", name="E4 numerator decayed twice per row")
+add("E4", "keep", EMAS, "_ema_adjusted", "        if np.isnan(x):\n            out[i] = out[i - 1]\n        else:\n            out[i] = (x + residual) / (1 + residual_weights)\n            residual_weights += 1\n            residual += x\n        residual *= beta\n        residual_weights *= beta\n", "        if np.isnan(x):\n            out[i] = out[i - 1]\n            residual_weights = residual_weights * beta\n            residual = residual * beta\n        else:\n            out[i] = (x + residual) / (1 + residual_weights)\n            residual_weights = beta * (residual_weights + 1)\n            residual = beta * (residual + x)\n", name="E4 decay folded into both arms")
+add("F1b", "break", FACT, "factorize_range_index", "if index.step != 1:", "if index.step > 1:", name="F1b negative steps not divided")
+add("F1b", "keep", FACT, "factorize_range_index", "    if index.step != 1:\n        codes = codes // index.step\n", "    codes = codes // index.step\n", name="F1b always divided")
+add("S3b", "break", CORE, INIT, "            self._sort = group_keys._sort\n", "            self._sort = sort\n", name="S3b copy takes _sort from the constructor argument")
+add("S3b", "break", CORE, INIT, "            self._group_key_pointers = group_keys._group_key_pointers\n", "            self._group_key_pointers = None\n", name="S3b copy drops the pointer tables of chunk-local codes")
